@@ -333,6 +333,13 @@ def B3_assign_pipeline(repo, clause):
     if len(tests) == 1:
         from .common import eq_const
         e = eq_const(tests[0])
+        apps = [c for c in calls_in(d) if isinstance(c.func, ast.Attribute) and c.func.attr == "append"]
+        if e is not None and apps:
+            pols = [pol for t, pol, k in norm_guards(d, apps[0]) if t is tests[0]]
+            if pols and pols[0] != e[2]:
+                e = None      # the index is recorded when the test FAILS: inverted quantifier
+            elif pols:
+                e = (e[0], e[1], True)
         lp = [x for x in d.own_nodes() if isinstance(x, ast.For)]
         tupname = lp[0].target.elts[1].id if lp and isinstance(lp[0].target, ast.Tuple) else None
         if e is not None and e[1] == 0 and e[2] and isinstance(e[0], ast.Call) and call_name(e[0]) == "len" and isinstance(e[0].args[0], ast.BinOp) \
